@@ -147,9 +147,12 @@ func (w *c17World) newDecision(kind string) *decision {
 		d.args = []any{d.id, d.cfgKey, d.cfgVal}
 		d.desc = fmt.Sprintf("setConfig#%d(%s=%s)", n, d.cfgKey, d.cfgVal)
 	case "alphabetUpdate":
-		// same-size replacement of one position by a spare key not in the list
+		// replacement of one position by a spare key not in the list, removal of one position, or
+		// addition of a spare key (the proposed list may differ in size from the stored one: the
+		// threshold is that of the stored list)
 		nl := append([][]byte{}, w.m.alphabet...)
 		pos := n % len(nl)
+		var spare []byte
 		for _, sp := range w.spares {
 			in := false
 			for _, k := range nl {
@@ -158,9 +161,27 @@ func (w *c17World) newDecision(kind string) *decision {
 				}
 			}
 			if !in {
-				nl[pos] = sp.PublicKey().Bytes()
+				spare = sp.PublicKey().Bytes()
 				break
 			}
+		}
+		shape := "replace position"
+		switch {
+		case (n/2)%3 == 1 && len(nl) > 1 && (len(nl)-1)*2/3 == len(nl)*2/3:
+			// (a removal that lowers the threshold under other pending ballots would make their next
+			// vote set-valued - the statement fixes n; such removals are enumerated in the group
+			// alphabet-resize, where no other ballot is pending)
+			shape = "drop position"
+			nl = append(nl[:pos:pos], nl[pos+1:]...)
+		case (n/2)%3 == 2 && spare != nil && len(nl) < 7:
+			shape = "append a key, was"
+			nl = append(nl, spare)
+			pos = len(nl) - 1
+		case spare != nil:
+			nl[pos] = spare
+		}
+		if len(nl) != len(w.m.alphabet) {
+			w.h.Mark("alphabetUpdate-proposes-another-size")
 		}
 		d.newAlphabet = nl
 		arr := make([]any, len(nl))
@@ -168,7 +189,7 @@ func (w *c17World) newDecision(kind string) *decision {
 			arr[i] = nl[i]
 		}
 		d.args = []any{d.id, arr}
-		d.desc = fmt.Sprintf("alphabetUpdate#%d(replace position %d)", n, pos)
+		d.desc = fmt.Sprintf("alphabetUpdate#%d(%s %d: %d -> %d keys)", n, shape, pos, len(w.m.alphabet), len(nl))
 	case "cheque":
 		d.payee, d.amount = w.payees[n%2], int64(1000+n)
 		d.args = []any{d.id, d.payee, d.amount, []byte(fmt.Sprintf("lock-%d", n))}
@@ -374,8 +395,8 @@ func (w *c17World) signerOf(pub []byte) neotest.SingleSigner {
 func TestC17Stateful(t *testing.T) {
 	theT = t
 	col := ev.New("C17", "stateful",
-		"rapid state machine on the main-chain NeoFS contract deployed without Notary with n=1..7 stored Alphabet keys: decisions {setConfig, alphabetUpdate (same-size replacement), cheque, innerRingCandidateRemove} with two competing ids per kind whose arguments are a function of the id; actors: current members, replaced ex-members, strangers, the candidate itself, sometimes two signers; blocks of 1..3 invocations separated by gaps {1,19,20,21,25} (several votes per block = gap 0); ballot model: distinct voters per id, expiry when the gap to the last counted vote exceeds 20 blocks, effect exactly in the invocation reaching floor(2n/3)+1; config, alphabetList, innerRingCandidates, payee GAS and the Cheque/AlphabetUpdate/SetConfig notifications compared after every block; non-trivial = a decision completed with n>=3 after a gap >= 19 or with a competing id / stranger / repeated vote in the history",
-		"the arguments of a decision are a function of its id (the Inner Ring derives ids from events)", "alphabetUpdate keeps the size of the list", "a repeated vote that falls inside the window while the last counted vote is older than 20 blocks is set-valued (resynchronised from the stored ballot)", "the contract holds enough GAS for every cheque")
+		"rapid state machine on the main-chain NeoFS contract deployed without Notary with n=1..7 stored Alphabet keys: decisions {setConfig, alphabetUpdate (replacement or addition of one key, removal where the threshold stays: the proposed list may have another size than the stored one), cheque, innerRingCandidateRemove} with two competing ids per kind whose arguments are a function of the id; actors: current members, replaced ex-members, strangers, the candidate itself, sometimes two signers; blocks of 1..3 invocations separated by gaps {1,19,20,21,25} (several votes per block = gap 0); ballot model: distinct voters per id, expiry when the gap to the last counted vote exceeds 20 blocks, effect exactly in the invocation reaching floor(2n/3)+1; config, alphabetList, innerRingCandidates, payee GAS and the Cheque/AlphabetUpdate/SetConfig notifications compared after every block; non-trivial = a decision completed with n>=3 after a gap >= 19 or with a competing id / stranger / repeated vote in the history",
+		"the arguments of a decision are a function of its id (the Inner Ring derives ids from events)", "a repeated vote that falls inside the window while the last counted vote is older than 20 blocks is set-valued (resynchronised from the stored ballot)", "the contract holds enough GAS for every cheque")
 	runRapid(t, col, func(rt *rapid.T, h *ev.History) {
 		k := rapid.SampledFrom([]int{1, 2, 3, 4, 4, 5, 7}).Draw(rt, "n")
 		w := newC17World(k, h)
@@ -522,6 +543,83 @@ func TestC17Stateful(t *testing.T) {
 
 func (w *c17World) completedNow(o *chainkit.Outcome, d *decision) bool {
 	return len(chainkit.EventsNamed(o.Events, eventOf(d.kind))) > 0
+}
+
+// TestC17AlphabetResize: the threshold of an alphabetUpdate is that of the stored list, whatever the size of the proposed one.
+func TestC17AlphabetResize(t *testing.T) {
+	theT = t
+	col := ev.New("C17", "alphabet-resize",
+		"complete enumeration of stored sizes n=1..7 x proposed sizes m=1..7: one alphabetUpdate decision (no other ballot pending), the stored keys vote one per block: the list must be replaced exactly by vote floor(2n/3)+1 (n = stored size) and by no other; afterwards a setConfig decision is voted by the keys of the new list and must complete exactly at floor(2m/3)+1; non-trivial = m != n")
+	defer func() { col.Flush(true) }()
+	nshards, shard := envInt("VERIF_NSHARDS", 1), envInt("VERIF_SHARD_INDEX", 0)
+	idx := 0
+	for n := 1; n <= 7; n++ {
+		for m := 1; m <= 7; m++ {
+			idx++
+			if idx%nshards != shard {
+				continue
+			}
+			h := ev.NewHistory()
+			h.Op("stored %d keys, proposed %d keys", n, m)
+			if !runCase(t, col, h, func() {
+				w := newC17World(n, h)
+				defer w.close()
+				var nl [][]byte
+				for i := 0; i < m && i < n; i++ {
+					nl = append(nl, w.m.alphabet[i])
+				}
+				for i := n; i < m; i++ {
+					k := chainkit.DetKey(fmt.Sprintf("main-added-%d", i))
+					w.allKeys[string(k.PublicKey().Bytes())] = k
+					nl = append(nl, k.PublicKey().Bytes())
+				}
+				idh := sha256.Sum256([]byte(fmt.Sprintf("resize-%d-%d", n, m)))
+				arr := make([]any, len(nl))
+				for i := range nl {
+					arr[i] = nl[i]
+				}
+				d := &decision{kind: "alphabetUpdate", id: idh[:], newAlphabet: nl, args: []any{idh[:], arr}, desc: fmt.Sprintf("alphabetUpdate(%d -> %d keys)", n, m)}
+				old := append([][]byte{}, w.m.alphabet...)
+				for i := 0; i < w.m.threshold() && i < len(old); i++ {
+					// (the model replaces the list when the threshold of the stored list is reached; the voters are the old keys)
+					v := w.prepare(d, []neotest.SingleSigner{w.signerOf(old[i])}, fmt.Sprintf("member %d", i))
+					outs := w.c.InvokeBlock(0, v.tx)
+					thrBefore := len(old)*2/3 + 1
+					w.apply(v, outs[0])
+					w.observe("alphabetUpdate vote")
+					if (i+1 == thrBefore) != h.Has("completed:alphabetUpdate") {
+						fail("C17: alphabetUpdate(%d -> %d keys): after vote %d of the stored keys completed=%v, threshold of the stored list is %d", n, m, i+1, h.Has("completed:alphabetUpdate"), thrBefore)
+					}
+					if h.Has("completed:alphabetUpdate") {
+						break
+					}
+				}
+				if !h.Has("completed:alphabetUpdate") {
+					fail("C17: alphabetUpdate(%d -> %d keys) never completed", n, m)
+				}
+				// the new list decides with its own threshold
+				sc := w.newDecision("setConfig")
+				for i := 0; i < len(nl); i++ {
+					v := w.prepare(sc, []neotest.SingleSigner{w.signerOf(nl[i])}, fmt.Sprintf("new member %d", i))
+					outs := w.c.InvokeBlock(0, v.tx)
+					w.apply(v, outs[0])
+					w.observe("setConfig vote of the new list")
+					if (i+1 >= m*2/3+1) != h.Has("completed:setConfig") {
+						fail("C17: after alphabetUpdate(%d -> %d keys) setConfig completed=%v at vote %d, threshold of the new list is %d", n, m, h.Has("completed:setConfig"), i+1, m*2/3+1)
+					}
+					if h.Has("completed:setConfig") {
+						break
+					}
+				}
+				if m != n {
+					h.NonTrivial()
+				}
+			}) {
+				return
+			}
+		}
+	}
+	col.SetExhaustive(true)
 }
 
 // TestC17Exhaustive enumerates all vote sequences of bounded length.
